@@ -516,6 +516,10 @@ def exh_cases(seed, chunk, nchunks, tier):
 
 
 def run(ctx):
+    from .. import tie
+
+    # translation tie: Lean definitions regenerated from /repo's source + equality theorems with the model
+    ctx.tie = tie.run_tie(ctx, tie.FUNCTIONS["C05"])
     n = 5000 if ctx.tier == "quick" else 40000
     stream.run_stream(ctx, "fuse", "harness.props.c05", "gen_cases", n, per_chunk=60,
                       canon_kw=dict(drop_zero=True))
